@@ -205,6 +205,8 @@ ASSUME Cardinality(Keywords) = 15 /\ Cardinality(KeywordClasses) = 15
 
 -----------------------------------------------------------------------------
 (* Symbol kinds, occurrences of the fixed source family (harness/src/bin/renamegate.rs), packages *)
+(* `*_shadowed`: a qualified occurrence `lib.name` in a module that declares a `name` of its own - *)
+(* it still means the library's declaration                                                      *)
 LowerKinds  == {"function", "constant", "field", "param", "let_local", "case_local", "use_local", "as_local",
                 "spread_local", "lambda_param", "fn_label", "typevar"}
 UpperKinds  == {"type", "type_alias", "constructor"}
@@ -220,6 +222,7 @@ Occurrences ==
       [id |-> "function.def", kind |-> "function", via |-> "direct", site |-> "def"],
       [id |-> "function.use", kind |-> "function", via |-> "direct", site |-> "use"],
       [id |-> "function.qualified", kind |-> "function", via |-> "qualified", site |-> "use"],
+      [id |-> "function.qualified_shadowed", kind |-> "function", via |-> "qualified", site |-> "use"],
       [id |-> "function.unq_import", kind |-> "function", via |-> "unqualified", site |-> "use"],
       [id |-> "function.unq_use", kind |-> "function", via |-> "unqualified", site |-> "use"],
       [id |-> "function.alias_orig", kind |-> "function", via |-> "unqualified", site |-> "use"],
@@ -229,6 +232,7 @@ Occurrences ==
       [id |-> "constant.def", kind |-> "constant", via |-> "direct", site |-> "def"],
       [id |-> "constant.use", kind |-> "constant", via |-> "direct", site |-> "use"],
       [id |-> "constant.qualified", kind |-> "constant", via |-> "qualified", site |-> "use"],
+      [id |-> "constant.qualified_shadowed", kind |-> "constant", via |-> "qualified", site |-> "use"],
       [id |-> "constant.unq_import", kind |-> "constant", via |-> "unqualified", site |-> "use"],
       [id |-> "constant.unq_use", kind |-> "constant", via |-> "unqualified", site |-> "use"],
       [id |-> "constant.alias_orig", kind |-> "constant", via |-> "unqualified", site |-> "use"],
@@ -267,6 +271,7 @@ Occurrences ==
       [id |-> "type.def", kind |-> "type", via |-> "direct", site |-> "def"],
       [id |-> "type.use", kind |-> "type", via |-> "direct", site |-> "use"],
       [id |-> "type.qualified", kind |-> "type", via |-> "qualified", site |-> "use"],
+      [id |-> "type.qualified_shadowed", kind |-> "type", via |-> "qualified", site |-> "use"],
       [id |-> "type.unq_import", kind |-> "type", via |-> "unqualified", site |-> "use"],
       [id |-> "type.unq_use", kind |-> "type", via |-> "unqualified", site |-> "use"],
       [id |-> "type.alias_orig", kind |-> "type", via |-> "unqualified", site |-> "use"],
@@ -276,6 +281,7 @@ Occurrences ==
       [id |-> "type_alias.def", kind |-> "type_alias", via |-> "direct", site |-> "def"],
       [id |-> "type_alias.use", kind |-> "type_alias", via |-> "direct", site |-> "use"],
       [id |-> "type_alias.qualified", kind |-> "type_alias", via |-> "qualified", site |-> "use"],
+      [id |-> "type_alias.qualified_shadowed", kind |-> "type_alias", via |-> "qualified", site |-> "use"],
       [id |-> "type_alias.unq_import", kind |-> "type_alias", via |-> "unqualified", site |-> "use"],
       [id |-> "type_alias.unq_use", kind |-> "type_alias", via |-> "unqualified", site |-> "use"],
       [id |-> "type_alias.alias_orig", kind |-> "type_alias", via |-> "unqualified", site |-> "use"],
@@ -286,6 +292,8 @@ Occurrences ==
       [id |-> "constructor.pattern", kind |-> "constructor", via |-> "direct", site |-> "use"],
       [id |-> "constructor.qualified", kind |-> "constructor", via |-> "qualified", site |-> "use"],
       [id |-> "constructor.qualified_pattern", kind |-> "constructor", via |-> "qualified", site |-> "use"],
+      [id |-> "constructor.qualified_shadowed", kind |-> "constructor", via |-> "qualified", site |-> "use"],
+      [id |-> "constructor.qualified_pattern_shadowed", kind |-> "constructor", via |-> "qualified", site |-> "use"],
       [id |-> "constructor.unq_import", kind |-> "constructor", via |-> "unqualified", site |-> "use"],
       [id |-> "constructor.unq_use", kind |-> "constructor", via |-> "unqualified", site |-> "use"],
       [id |-> "constructor.unq_pattern", kind |-> "constructor", via |-> "unqualified", site |-> "use"],
